@@ -50,7 +50,7 @@ def class_body(src, header_rx, what):
     return src[b:match_brace(src, b)]
 
 
-def member_body(cls, name, what):
+def member_body(cls, name, what, inline=True):
     """body of the (single) member function `void <name> (...) const { ... }` of a class body"""
     ms = list(re.finditer(r"\bvoid\s+%s\s*\(" % name, cls))
     if len(ms) != 1:
@@ -69,7 +69,8 @@ def member_body(cls, name, what):
     j = cls.index("{", i)
     if not re.fullmatch(r"\s*(const)?\s*", cls[i + 1:j]):
         raise TranslateError("%s::%s: unexpected tokens between parameter list and body: %r" % (what, name, cls[i + 1:j]))
-    return cls[j + 1:match_brace(cls, j) - 1]
+    body = cls[j + 1:match_brace(cls, j) - 1]
+    return norm_body(body, cls, name, "%s::%s" % (what, name)) if inline else body
 
 
 def squeeze(s):
@@ -77,6 +78,257 @@ def squeeze(s):
 
 
 ID = r"[A-Za-z_]\w*"
+
+
+# ------------------------------------------------------------------------------------------------
+# round five: normalisation of function bodies before the statement shapes are matched, so that equivalent
+# spellings give the same generated text: private helper functions are inlined at their call sites, declared
+# locals are renamed to the canonical name the grammar uses, a range-for over *this becomes the index loop
+# ------------------------------------------------------------------------------------------------
+
+def split_top(s, sep=","):
+    """split at separators outside (), [], {} and <>"""
+    parts, depth, cur = [], 0, ""
+    for ch in s:
+        if ch in "([{<":
+            depth += 1
+        elif ch in ")]}>":
+            depth -= 1
+        if ch == sep and depth == 0:
+            parts.append(cur)
+            cur = ""
+        else:
+            cur += ch
+    parts.append(cur)
+    return parts
+
+
+def param_names(params):
+    """names of the parameters of a parameter list (None if one has no name or a default argument)"""
+    if not params.strip():
+        return []
+    names = []
+    for prm in split_top(params):
+        if "=" in prm:
+            return None
+        m = re.search(r"(%s)\s*$" % ID, prm)
+        if not m or not re.search(r"[\s&*>]$", prm[:m.start()]):
+            return None
+        names.append(m.group(1))
+    return names
+
+
+CALL_RX = r"(?:(?<=[;{})])|^)(\s*)(?:this->|asImp\(\)\.)?(%s)\s*\(" % ID
+NOT_HELPERS = {"for", "if", "while", "switch", "return", "assert", "static_assert", "DUNE_ASSERT_BOUNDS", "DUNE_THROW", "sizeof"}
+
+
+def inline_helpers(body, cls, self_name, what, depth=0):
+    """statement-level calls `helper(args);` of a member function of the same class that is defined exactly once, returns
+    nothing and declares no locals outside its loop headers are replaced by the helper's body with the arguments
+    substituted for its parameters.  A call that cannot be inlined soundly is left in place (the statement grammar then
+    rejects it loudly)."""
+    if cls is None or depth > 3:
+        return body
+    pos = 0
+    while True:
+        m = re.compile(CALL_RX).search(body, pos)
+        if not m:
+            return body
+        name = m.group(2)
+        pos = m.end()
+        if name in NOT_HELPERS or name == self_name:
+            continue
+        # the argument list and the terminating semicolon
+        i = m.end() - 1
+        d = 0
+        j = i
+        while j < len(body):
+            if body[j] == "(":
+                d += 1
+            elif body[j] == ")":
+                d -= 1
+                if d == 0:
+                    break
+            j += 1
+        if j >= len(body):
+            continue
+        mt = re.match(r"\s*;", body[j + 1:])
+        if not mt:
+            continue
+        defs = find_defs(cls, re.escape(name))
+        if len(defs) != 1:
+            continue
+        params, hbody = defs[0]
+        names = param_names(params)
+        args = [a.strip() for a in split_top(body[i + 1:j])] if body[i + 1:j].strip() else []
+        if names is None or len(names) != len(args):
+            continue
+        # the helper must be a procedure: no return statement, no declarations except the loop counters
+        hb = re.sub(r"#ifdef\s+DUNE_FMatrix_WITH_CHECKING.*?#endif", "", hbody, flags=re.S)
+        if re.search(r"\breturn\b", hb):
+            continue
+        counters = set(re.findall(r"for\s*\(\s*(?:[\w:]+\s+)+(%s)\s*=" % ID, hb))
+        outside = re.sub(r"for\s*\([^;]*;", "for(;", hb)
+        if re.search(r"\b(?:auto|const|typename|using|typedef|static)\b", outside) or re.search(r"(?<![\w\]\)])%s\s+%s\s*[=;({]" % (ID, ID), outside):
+            continue
+        # no capture: an argument must not mention a loop counter of the helper
+        if any(re.search(r"\b%s\b" % re.escape(c), a) for c in counters for a in args):
+            continue
+        sub = dict(zip(names, args))
+        def rep(mm):
+            a = sub[mm.group(0)]
+            return a if re.fullmatch(r"%s|\*this" % ID, a) else "(" + a + ")"
+        if "*this" in sub.values():
+            continue
+        if names:
+            hb = re.sub(r"(?<![\w.>])(?:%s)\b" % "|".join(re.escape(n) for n in names), rep, hb)
+        hb = inline_helpers(hb, cls, name, what, depth + 1)
+        end = j + 1 + mt.end()
+        # (the helper declares no locals, so braces are only needed where the call is the body of a control statement)
+        ctl = body[:m.start()].rstrip().endswith(")") or re.search(r"\belse\s*$", body[:m.start()])
+        body = body[:m.start() + len(m.group(1))] + (("{" + hb + "}") if ctl else hb) + body[end:]
+        pos = m.start()
+
+
+PURE_SIZE = r"(?:(?:this->|asImp\(\)\.|%s\.)?(?:size|rows|cols|N|M|dim|mat_rows|mat_cols)\(\)|\d+|ROWS|COLS|SIZE|dimension|rows|cols|n)" % ID
+
+
+def inline_const_locals(body):
+    """`const T name = EXPR;` with T an index type and EXPR an extent of an operand (size(), rows(), M.cols(), ROWS ...):
+    the declaration is dropped and the name replaced by EXPR.  (An extent hoisted out of a loop is the extent evaluated in
+    every iteration, because the loops of the grammar only assign to entries.)  Anything else is left alone."""
+    while True:
+        m = re.search(r"\bconst\s+(?:std::size_t|size_type|idx_type|typename\s+\w+::size_type|int|unsigned|auto)\s+(%s)\s*(?:=\s*(%s)|\(\s*(%s)\s*\)|\{\s*(%s)\s*\})\s*;"
+                      % (ID, PURE_SIZE, PURE_SIZE, PURE_SIZE), body)
+        if not m:
+            return body
+        name = m.group(1)
+        expr = squeeze(m.group(2) or m.group(3) or m.group(4))
+        rest = body[:m.start()] + body[m.end():]
+        if re.search(r"(?<![\w.>])%s\s*(?:=(?!=)|\+=|-=|\+\+|--)" % re.escape(name), rest) or re.search(r"(?:\+\+|--|&)\s*%s\b" % re.escape(name), rest):
+            return body
+        body = re.sub(r"(?<![\w.>:])%s\b(?!\s*\()" % re.escape(name), expr, rest)
+
+
+def norm_loop_headers(s):
+    """squeezed text: `for(T i=0; B>i | i!=B | B!=i; i+=1 | i=i+1 | ++i | i++)` -> `for(T i=0;i<B;++i)` (i counts up from 0 in steps
+    of one and B is an extent, so `i != B` is `i < B`)"""
+    def fix(m):
+        ty, v, cond, inc = m.group(1), m.group(2), m.group(3), m.group(4)
+        ev = re.escape(v)
+        for rx in (r"%s<([^;<>!=]+)" % ev, r"([^;<>!=]+)>%s" % ev, r"%s!=([^;<>!=]+)" % ev, r"([^;<>!=]+)!=%s" % ev):
+            mc = re.fullmatch(rx, cond)
+            if mc:
+                break
+        else:
+            return m.group(0)
+        if not re.fullmatch(r"\+\+%s|%s\+\+|%s\+=1|%s=%s\+1|%s=1\+%s" % ((ev,) * 7), inc):
+            return m.group(0)
+        return "for(%s%s=0;%s<%s;++%s)" % (ty, v, v, mc.group(1), v)
+    return re.sub(r"for\(((?:std::size_t|size_type|idx_type|typename\w+::size_type|int|unsigned|auto))(%s)=0;([^;]*);([^;()]*)\)" % ID, fix, s)
+
+
+def norm_compound(stmt):
+    """squeezed statement `L = L op E;` -> `L op= E;` (E without a top-level + or -, for * and / without any operator);
+    `L = E + L;` -> `L += E;` (the scalars commute)"""
+    m = re.fullmatch(r"([^=;]+)=(.*);", stmt)
+    if not m or m.group(1)[-1] in "+-*/!<>":
+        return stmt
+    lhs, rhs = m.group(1), m.group(2)
+    def top_ops(e):
+        d, ops = 0, set()
+        for k, ch in enumerate(e):
+            if ch in "([":
+                d += 1
+            elif ch in ")]":
+                d -= 1
+            elif d == 0 and ch in "+-*/" and k > 0:
+                ops.add(ch)
+        return ops
+    for op in "+-*/":
+        if rhs.startswith(lhs + op):
+            e = rhs[len(lhs) + 1:]
+            bad = set("+-") if op in "+-" else set("+-*/")
+            if e and not (top_ops(e) & bad) and not e.startswith("-"):
+                return "%s%s=%s;" % (lhs, op, e)
+    if rhs.endswith("+" + lhs):
+        e = rhs[:-len(lhs) - 1]
+        if e and not (top_ops(e) & set("+-")) and not e.startswith("-"):
+            return "%s+=%s;" % (lhs, e)
+    return stmt
+
+
+def norm_body(body, cls, self_name, what):
+    return inline_const_locals(inline_helpers(body, cls, self_name, what))
+
+
+def rename_local(body, decl_rx, canonical, what):
+    """decl_rx: regex of the declaration of a local, spelled with the canonical name; the local may carry any other name
+    that does not clash -> body with the local renamed to the canonical name"""
+    k = decl_rx.rfind(canonical)
+    if k < 0:
+        return body
+    if re.search(decl_rx, body):
+        return body
+    gen = decl_rx[:k] + "(?P<lv>" + ID + ")" + decl_rx[k + len(canonical):]
+    ms = list(re.finditer(gen, body))
+    if len(ms) != 1:
+        return body
+    nm = ms[0].group("lv")
+    if re.search(r"\b%s\b" % re.escape(canonical), body):
+        raise TranslateError("%s: local %r cannot be renamed to %r (name in use)" % (what, nm, canonical))
+    return re.sub(r"(?<![\w.>])%s\b" % re.escape(nm), canonical, body)
+
+
+RANGE_FOR = r"for\((?:const)?(?:auto|value_type|field_type|typenameV::value_type|typenameTraits::value_type)(?:const)?&&?(%s):(?:\*this|asImp\(\))\)" % ID
+_range_for_checked = {}
+
+
+def range_for_to_index(s, what):
+    """squeezed `for(T& e : *this) STMT` over a DenseVector -> `for(size_type i=0;i<size();i++) STMT[e := (*this)[i]]`
+    (by reference only: a by-value loop variable would be a copy)"""
+    m = re.match(RANGE_FOR, s)
+    it = None
+    if not m:
+        # explicit iterator loop `for (auto it = begin(); it != end(); ++it) STMT` with the entry spelled `*it` / `(*it)`
+        m = re.match(r"for\((?:auto|Iterator|typenameV::Iterator)(%s)=(?:this->|asImp\(\)\.)?begin\(\);\1!=(?:this->|asImp\(\)\.)?end\(\);(?:\+\+\1|\1\+\+)\)" % ID, s)
+        if not m:
+            return s
+        it = m.group(1)
+    if not _range_for_checked.get("ok"):
+        raise TranslateError("%s: range-for over *this, but begin()/end()/DenseIterator of densevector.hh are outside the grammar" % what)
+    e = m.group(1)
+    rest = s[m.end():]
+    if rest.startswith("{"):
+        end = match_brace(rest, 0)
+    else:
+        if rest.startswith("for(") or ";" not in rest:
+            raise TranslateError("%s: body of the range-for outside the grammar: %r" % (what, s[:120]))
+        end = rest.index(";") + 1
+    stmt, tail = rest[:end], rest[end:]
+    iv = "rf_i"
+    if re.search(r"\b%s\b" % iv, s):
+        raise TranslateError("%s: name %r in use" % (what, iv))
+    if it:
+        stmt = re.sub(r"\(\*%s\)|(?<![\w\])])\*%s\b" % (re.escape(it), re.escape(it)), "(*this)[%s]" % iv, stmt)
+        if re.search(r"\b%s\b" % re.escape(it), stmt):
+            raise TranslateError("%s: the iterator is used other than dereferenced: %r" % (what, s[:120]))
+    else:
+        stmt = re.sub(r"(?<![\w.>])%s\b" % re.escape(e), "(*this)[%s]" % iv, stmt)
+    return "for(size_type%s=0;%s<size();%s++)%s%s" % (iv, iv, iv, stmt, tail)
+
+
+def check_range_for(dvsrc):
+    """the iteration protocol a range-for over a DenseVector relies on (densevector.hh): begin() at 0, end() at size(),
+    dereference = operator[](position), increment = ++position, equality of positions"""
+    t = squeeze(dvsrc)
+    need = ["Iteratorbegin(){returnIterator(*this,0);}", "Iteratorend(){returnIterator(*this,size());}",
+            "ConstIteratorbegin()const{returnConstIterator(*this,0);}", "ConstIteratorend()const{returnConstIterator(*this,size());}",
+            "Rdereference()const{returncontainer_->operator[](position_);}", "voidincrement(){++position_;}",
+            "boolequals(constMutableIterator&other)const{returnposition_==other.position_&&container_==other.container_;}",
+            "boolequals(constConstIterator&other)const{returnposition_==other.position_&&container_==other.container_;}",
+            "DenseIterator(C&cont,SizeTypepos):container_(&cont),position_(pos){}"]
+    _range_for_checked["ok"] = all(n in t for n in need)
 
 
 def parse_rhs(rhs, entry_rx, xname, what):
@@ -119,7 +371,7 @@ def dense_sig(body, name):
     b = re.sub(r"auto\s*&&\s*yy\s*=\s*Impl::asVector\(y\)\s*;", "", b)
     b = re.sub(r"DUNE_ASSERT_BOUNDS\((?:[^()]|\([^()]*\))*\)\s*;", "", b)
     b = re.sub(r"using\s+y_field_type\s*=\s*typename\s+FieldTraits<Y>::field_type\s*;", "", b)
-    s = squeeze(b)
+    s = norm_loop_headers(squeeze(b))
     # loop header: any index type; bound rows()/cols() or the aliases N()/M(), optionally through this->
     s = re.sub(r"for\((?:std::size_t|size_type|typenameMAT::size_type|int|unsigned|auto)(?=%s=0;)" % ID, "for(size_type", s)
     s = re.sub(r"<(?:this->)?N\(\);", "<rows();", s)
@@ -149,7 +401,7 @@ def dense_sig(body, name):
     stmt, _ = strip_braces(rest[m.end():])
     if not stmt.endswith(";") or stmt.count(";") != 1:
         raise TranslateError("%s: inner loop body is not a single statement: %r" % (what, s))
-    stmt = stmt[:-1]
+    stmt = norm_compound(stmt)[:-1]
     if v1b != v1 or (v1c or v1d) != v1 or v2b != v2 or (v2c or v2d) != v2 or v1 == v2:
         raise TranslateError("%s: loop headers inconsistent: %r" % (what, s))
     zero = False
@@ -174,7 +426,7 @@ def dense_sig(body, name):
                "true" if conj else "false", var[row], var[col], var[xi]))
 
 
-def diag_sig(body, name):
+def diag_sig(body, name, cls=None):
     """returns ('sig', text) or ('fwd', kernelname)"""
     what = "diagonalmatrix.hh %s" % name
     b = re.sub(r"#ifdef\s+DUNE_FMatrix_WITH_CHECKING.*?#endif", "", body, flags=re.S)
@@ -184,6 +436,17 @@ def diag_sig(body, name):
         if m.group(1) not in KERNELS or m.group(1) == name:
             raise TranslateError("%s: forwards to %r" % (what, m.group(1)))
         return ("fwd", m.group(1))
+    # any other call of a sibling member is inlined (arguments substituted for its parameters) and read as a loop
+    b = re.sub(r"#ifdef\s+DUNE_FMatrix_WITH_CHECKING.*?#endif", "", norm_body(body, cls, name, what), flags=re.S)
+    s = squeeze(b)
+    while s.startswith("{") and match_brace(s, 0) == len(s):
+        s = s[1:-1]
+    s = norm_loop_headers(s)
+    ml = re.fullmatch(r"(for\([^()]*\))(.*;)", s)
+    if ml and ml.group(2).count(";") == 1:
+        s = ml.group(1) + norm_compound(ml.group(2))
+    s = re.sub(r"for\((?:std::size_t|size_type|int|unsigned|auto)(?=%s=0;)" % ID, "for(size_type", s)
+    s = re.sub(r"<(?:this->)?(?:N\(\)|M\(\)|rows\(\)|cols\(\)|size\(\));", "<n;", s)
     m = re.fullmatch(r"for\(size_type(%s)=0;(%s)<n;(?:\+\+(%s)|(%s)\+\+)\)y\[(%s)\](=|\+=|-=)(.*);" % ((ID,) * 5), s)
     if not m:
         raise TranslateError("%s: body outside the grammar: %r" % (what, s))
@@ -246,7 +509,8 @@ def one_def(cls, name_rx, what, param_filter=None):
         ds = [d for d in ds if param_filter(squeeze(d[0]))]
     if len(ds) != 1:
         raise TranslateError("%s: expected exactly one definition, found %d" % (what, len(ds)))
-    return ds[0]
+    m = re.search(r"(?:operator\s*\S+|%s)\s*$" % ID, what.split("(")[0])
+    return ds[0][0], norm_body(ds[0][1], cls, m.group(0) if m else None, what)
 
 
 LOOPHDR = r"for\((?:std::size_t|size_type|idx_type|typename\w+::size_type|int|unsigned|auto)(%s)=0;(%s)<([^;]+);(?:\+\+(%s)|(%s)\+\+)\)" % ((ID,) * 4)
@@ -254,6 +518,9 @@ LOOPHDR = r"for\((?:std::size_t|size_type|idx_type|typename\w+::size_type|int|un
 
 def parse_loop(s, what):
     """s (squeezed) starts with a for header -> (var, bound, body, rest); body without the outer braces"""
+    mh = re.match(r"for\([^;]*;[^;]*;[^;()]*\)", s)
+    if mh:
+        s = norm_loop_headers(mh.group(0)) + s[mh.end():]
     m = re.match(LOOPHDR, s)
     if not m:
         raise TranslateError("%s: loop header outside the grammar: %r" % (what, s[:120]))
@@ -286,6 +553,7 @@ def elem_sig(body, what, self_names=(r"\(\*this\)",), drop=()):
     s = squeeze(b)
     s = re.sub(r"returnasImp\(\);$", "", s)
     s = re.sub(r"return\*this;$", "", s)
+    s = range_for_to_index(s, what)
     v, bound, stmt, rest = parse_loop(s, what)
     if not re.fullmatch(SIZE_BOUND, bound):
         raise TranslateError("%s: loop bound %r is not the size" % (what, bound))
@@ -309,7 +577,7 @@ def vec_assign_sig(body, what, scalar_alias=None, vec_arg="x", scalar_arg=None):
     v, stmt, rest = elem_sig(body, what, drop=drop)
     if rest:
         raise TranslateError("%s: unexpected statements after the loop: %r" % (what, rest))
-    m = re.fullmatch(r"\(\*this\)\[(%s)\](=|\+=|-=|\*=|/=)(.*);" % ID, stmt)
+    m = re.fullmatch(r"\(\*this\)\[(%s)\](=|\+=|-=|\*=|/=)(.*);" % ID, norm_compound(stmt))
     if not m or m.group(1) != v:
         raise TranslateError("%s: statement outside the grammar: %r" % (what, stmt))
     op, rhs = m.group(2), m.group(3)
@@ -327,6 +595,7 @@ def vec_assign_sig(body, what, scalar_alias=None, vec_arg="x", scalar_arg=None):
 
 def translate_vectors(repo, out):
     rd = lambda f: strip_comments(open(os.path.join(repo, "dune/common", f)).read())
+    check_range_for(rd("densevector.hh"))
     dv = class_body(rd("densevector.hh"), r"template\s*<\s*typename\s+V\s*>\s*class\s+DenseVector\s*\{", "DenseVector")
     isvec = lambda p: "DenseVector<" in p
     notvec = lambda p: "DenseVector<" not in p and p != ""
@@ -341,7 +610,7 @@ def translate_vectors(repo, out):
     sigs["axpy"] = vec_assign_sig(one_def(dv, r"axpy", "DenseVector::axpy")[1], "DenseVector::axpy", scalar_arg="a")
     # unary minus: `V result = asImp(); ... for (...) result[i] = -asImp()[i]; return result;`
     what = "DenseVector::operator-()"
-    body = one_def(dv, r"operator-", what, lambda p: p == "")[1]
+    body = rename_local(one_def(dv, r"operator-", what, lambda p: p == "")[1], NEG_DECL % ("V", "V"), "result", what)
     vneg_result = neg_result(body, what, "V")
     b = re.sub(NEG_DECL % ("V", "V"), "", body)
     b = re.sub(r"using\s+idx_type\s*=[^;]*;", "", b)
@@ -368,13 +637,21 @@ def translate_vectors(repo, out):
             body, what, r"FieldVector<T,\s*SIZE>\s*result\s*;", [r"vector\.size\(\)|SIZE|dimension|vector\.N\(\)"],
             {"vector": ".a"}, scalar="scalar")))
     # binary + and -: copy of *this, compound assignment
+    binres = []
     for name, opname, gen in (("plus", r"operator\+", "plusAssign"), ("minus", r"operator-", "minusAssign")):
         what = "DenseVector::operator%s(vector)" % ("+" if name == "plus" else "-")
         body = squeeze(one_def(dv, opname + r"(?!=)", what, isvec)[1])
-        m = re.fullmatch(r"derived_typez=asImp\(\);return\(?z(\+=|-=)b\)?;", body)
-        if not m:
+        # `T z = asImp(); return (z += b);` or `...; z += b; return z;` with T the operand's own type (for a view type: a second
+        # handle onto the operand) or its autonomous value type; the local and the argument may carry any name
+        arg = re.search(r"(%s)$" % ID, squeeze(one_def(dv, opname + r"(?!=)", what, isvec)[0])).group(1)
+        m = re.fullmatch(r"(AutonomousValue<(?:V|derived_type)>|V|derived_type|auto)(%s)(?:=asImp\(\)|\(asImp\(\)\)|\{asImp\(\)\});"
+                         r"(?:return\(?\2(\+=|-=)%s\)?;|\2(\+=|-=)%s;return\2;)" % (ID, re.escape(arg), re.escape(arg)), body)
+        if not m or m.group(2) == arg:
             raise TranslateError("%s: body outside the grammar: %r" % (what, body))
-        out.append("def v%sVia : ViaAssign := .%s" % (name, "plusAssign" if m.group(1) == "+=" else "minusAssign"))
+        out.append("def v%sVia : ViaAssign := .%s" % (name, "plusAssign" if (m.group(3) or m.group(4)) == "+=" else "minusAssign"))
+        binres.append("def v%sResult : NegResult := %s" % (name, ".autonomous" if m.group(1).startswith("AutonomousValue<") else ".sameType"))
+    out.append("-- the result of binary + / -: declared with the operand's own type or with its autonomous value type (see vnegResult)")
+    out.extend(binres)
     # comparison: `if ((*this)[i]!=x[i]) return false; ... return true;` and `!=` as its negation
     what = "DenseVector::operator=="
     body = one_def(dv, r"operator==", what, isvec)[1]
@@ -467,11 +744,13 @@ def copyback_ok(rest, rows_b, cols_b):
     return {a, b} == {vi, vj} and bound[a] in rows_b and bound[b] in cols_b
 
 
-def prod_sig(body, what, target, fst, snd, bounds, pre=(), tail=None):
+def prod_sig(body, what, target, fst, snd, bounds, pre=(), tail=None, local=None):
     """three-deep product nest.  target/fst/snd: regexes of the matrix names; bounds: {source bound text: extent};
     tail: predicate for the statements that may follow the nest (default: none may)"""
     b = body
     for d in pre:
+        if local:
+            b = rename_local(b, d, local, what)
         b, n = re.subn(d, "", b)
         if n != 1:
             raise TranslateError("%s: expected preamble statement %r" % (what, d))
@@ -505,7 +784,7 @@ def prod_sig(body, what, target, fst, snd, bounds, pre=(), tail=None):
     if len({vi, vj, vk}) != 3:
         raise TranslateError("%s: loop variables not distinct" % what)
     var = {vi: ".i", vj: ".j", vk: ".k"}
-    m = re.fullmatch(r"(%s)\[(%s)\]\[(%s)\]\+=(.*);" % (target, ID, ID), stmt)
+    m = re.fullmatch(r"(%s)\[(%s)\]\[(%s)\]\+=(.*);" % (target, ID, ID), norm_compound(stmt))
     if not m:
         raise TranslateError("%s: update statement outside the grammar: %r" % (what, stmt))
     tr, tc, rhs = m.group(2), m.group(3), m.group(4)
@@ -554,7 +833,7 @@ def inplace_sig(body, what, m_first, bounds, pre, rows_b, cols_b):
     for via, target, other in ((".copyBack", "C", this), (".direct", this, "C")):
         fst, snd = ("M", other) if m_first else (other, "M")
         try:
-            sig = prod_sig(body, what, target, fst, snd, bounds, pre=pre,
+            sig = prod_sig(body, what, target, fst, snd, bounds, pre=pre, local="C",
                            tail=(lambda rest: copyback_ok(rest, rows_b, cols_b)) if via == ".copyBack" else None)
             return sig, via
         except TranslateError as e:
@@ -568,7 +847,7 @@ EWOPS = {"+": ".add", "-": ".sub", "*": ".mul", "/": ".div"}
 def ew_sig(body, what, decl, bound_rxs, entries, scalar=None, target="result", init_copy=False):
     """fresh-result elementwise loop (nest): `DECL result; for i [for j] result[i][j] = L op R; return result;`
     bound_rxs: regexes of the loop bounds (one per index: rows[, cols]); entries: {source name: '.a' | '.b'} -> EwSig text"""
-    b, n = re.subn(decl, "", body)
+    b, n = re.subn(decl, "", rename_local(body, decl, target, what))
     if n != 1:
         raise TranslateError("%s: declaration of the result outside the grammar" % what)
     b = re.sub(r"using\s+(?:T|idx_type)\s*=[^;]*;", "", b)
@@ -633,7 +912,7 @@ NEG_DECL = r"\b(?:AutonomousValue<\s*(?:%s|derived_type)\s*>|%s|derived_type|aut
 
 
 def trans_sig(body, what, rows_b, cols_b, decl):
-    b, n = re.subn(decl, "", body)
+    b, n = re.subn(decl, "", rename_local(body, decl, "AT", what))
     if n != 1:
         raise TranslateError("%s: declaration of the result outside the grammar" % what)
     s = squeeze(b)
@@ -669,7 +948,7 @@ def helper_kernel_sig(src, name, what, mat, xname, yname, rows_b, cols_b):
     if not m or len(re.findall(r"static\s+inline\s+void\s+%s\s*\(" % name, src)) != 1:
         raise TranslateError("%s: definition not found (or not unique)" % what)
     b0 = src.index("{", m.end())
-    body = src[b0 + 1:match_brace(src, b0) - 1]
+    body = inline_const_locals(src[b0 + 1:match_brace(src, b0) - 1])
     body = re.sub(r"DUNE_ASSERT_BOUNDS\((?:[^()]|\([^()]*\))*\)\s*;", "", body)
     body = re.sub(r"typedef\s+typename\s+[^;]*::size_type\s+size_type\s*;", "", body)
     s = squeeze(body)
@@ -785,7 +1064,7 @@ def translate(repo):
     out.append("-- diagonalmatrix.hh: DiagonalMatrix<K,n>::mv ... usmhv")
     dg = class_body(rd("diagonalmatrix.hh"), r"template\s*<\s*class\s+K\s*,\s*int\s+n\s*>\s*class\s+DiagonalMatrix\s*\{",
                     "DiagonalMatrix")
-    res = {k: diag_sig(member_body(dg, k, "DiagonalMatrix"), k) for k in KERNELS}
+    res = {k: diag_sig(member_body(dg, k, "DiagonalMatrix", inline=False), k, dg) for k in KERNELS}
     for k in KERNELS:  # signatures first, forwards after (a forward must point to a real signature)
         if res[k][0] == "sig":
             out.append("def dsig_%s : DiagSig := %s" % (k, res[k][1]))
@@ -844,40 +1123,40 @@ def translate(repo):
         body, "fmatrix.hh operator*(FieldMatrix,FieldMatrix)", "result", "matrixA", "matrixB",
         {"matrixA.mat_rows()": "fstRows", "matrixA.mat_cols()": "fstCols", "matrixB.mat_rows()": "sndRows",
          "matrixB.mat_cols()": "sndCols", "ROWS": "fstRows", "rows": "fstRows", "COLS": "fstCols", "cols": "fstCols", "otherCols": "sndCols"},
-        pre=[r"FieldMatrix<[^;]*>\s*result\s*;"]))
+        pre=[r"FieldMatrix<[^;]*>\s*result\s*;"], local="result"))
     body = one_def(fm, r"leftmultiplyany", "FieldMatrix::leftmultiplyany")[1]
     out.append("def psig_fmLeftmultiplyany : ProdSig :=\n  " + prod_sig(
         body, "FieldMatrix::leftmultiplyany", "C", "M", r"\(\*this\)",
         {"l": "fstRows", "M.rows()": "fstRows", "M.N()": "fstRows", "rows": "sndRows", "ROWS": "sndRows", "rows()": "sndRows", "N()": "sndRows",
          "cols": "sndCols", "COLS": "sndCols", "cols()": "sndCols", "M()": "sndCols", "M.cols()": "fstCols", "M.M()": "fstCols"},
-        pre=[r"FieldMatrix<K,l,cols>\s*C\s*;"]))
+        pre=[r"FieldMatrix<K,l,cols>\s*C\s*;"], local="C"))
     body = one_def(fm, r"rightmultiply", "FieldMatrix::rightmultiply")[1]
     inplace = {}
     sig, inplace["fmRightmultiply"] = inplace_sig(
         body, "FieldMatrix::rightmultiply", False,
         {"rows": "fstRows", "ROWS": "fstRows", "rows()": "fstRows", "N()": "fstRows", "cols": "fstCols", "COLS": "fstCols", "cols()": "fstCols",
          "M()": "fstCols", "r": "sndRows", "c": "sndCols", "M.rows()": "sndRows", "M.cols()": "sndCols", "M.N()": "sndRows", "M.M()": "sndCols"},
-        [r"FieldMatrix<K,rows,cols>\s*C\s*\(\s*\*this\s*\)\s*;"], {"rows", "ROWS", "rows()", "N()"}, {"cols", "COLS", "cols()", "M()"})
+        [r"FieldMatrix<K,rows,cols>\s*C\s*(?:\(\s*\*this\s*\)|=\s*\*this|\{\s*\*this\s*\})\s*;"], {"rows", "ROWS", "rows()", "N()"}, {"cols", "COLS", "cols()", "M()"})
     out.append("def psig_fmRightmultiply : ProdSig :=\n  " + sig)
     body = one_def(fm, r"rightmultiplyany", "FieldMatrix::rightmultiplyany")[1]
     out.append("def psig_fmRightmultiplyany : ProdSig :=\n  " + prod_sig(
         body, "FieldMatrix::rightmultiplyany", "C", r"\(\*this\)", "M",
         {"rows": "fstRows", "ROWS": "fstRows", "rows()": "fstRows", "N()": "fstRows", "cols": "fstCols", "COLS": "fstCols", "cols()": "fstCols",
          "M()": "fstCols", "l": "sndCols", "M.cols()": "sndCols", "M.M()": "sndCols", "M.rows()": "sndRows", "M.N()": "sndRows"},
-        pre=[r"FieldMatrix<K,rows,l>\s*C\s*;"]))
+        pre=[r"FieldMatrix<K,rows,l>\s*C\s*;"], local="C"))
     body = one_def(dm, r"leftmultiply", "DenseMatrix::leftmultiply")[1]
     sig, inplace["dmLeftmultiply"] = inplace_sig(
         body, "DenseMatrix::leftmultiply", True,
         {"rows()": "sndRows", "N()": "sndRows", "cols()": "sndCols", "M()": "sndCols", "M.rows()": "fstRows", "M.cols()": "fstCols",
          "M.N()": "fstRows", "M.M()": "fstCols", "C.rows()": "sndRows", "C.cols()": "sndCols", "C.N()": "sndRows", "C.M()": "sndCols"},
-        [r"AutonomousValue<MAT>\s*C\s*\(\s*asImp\(\)\s*\)\s*;"], {"rows()", "N()", "C.rows()", "C.N()"}, {"cols()", "M()", "C.cols()", "C.M()"})
+        [r"AutonomousValue<MAT>\s*C\s*(?:\(\s*asImp\(\)\s*\)|=\s*asImp\(\)|\{\s*asImp\(\)\s*\})\s*;"], {"rows()", "N()", "C.rows()", "C.N()"}, {"cols()", "M()", "C.cols()", "C.M()"})
     out.append("def psig_dmLeftmultiply : ProdSig :=\n  " + sig)
     body = one_def(dm, r"rightmultiply", "DenseMatrix::rightmultiply")[1]
     sig, inplace["dmRightmultiply"] = inplace_sig(
         body, "DenseMatrix::rightmultiply", False,
         {"rows()": "fstRows", "N()": "fstRows", "cols()": "fstCols", "M()": "fstCols", "M.rows()": "sndRows", "M.cols()": "sndCols",
          "M.N()": "sndRows", "M.M()": "sndCols", "C.rows()": "fstRows", "C.cols()": "fstCols", "C.N()": "fstRows", "C.M()": "fstCols"},
-        [r"AutonomousValue<MAT>\s*C\s*\(\s*asImp\(\)\s*\)\s*;"], {"rows()", "N()", "C.rows()", "C.N()"}, {"cols()", "M()", "C.cols()", "C.M()"})
+        [r"AutonomousValue<MAT>\s*C\s*(?:\(\s*asImp\(\)\s*\)|=\s*asImp\(\)|\{\s*asImp\(\)\s*\})\s*;"], {"rows()", "N()", "C.rows()", "C.N()"}, {"cols()", "M()", "C.cols()", "C.M()"})
     out.append("def psig_dmRightmultiply : ProdSig :=\n  " + sig)
     out.append("-- the in-place products accumulate in the copy C (reading the untouched *this and M, then copy back) or write *this directly")
     for k in ("dmLeftmultiply", "dmRightmultiply", "fmRightmultiply"):
@@ -887,7 +1166,7 @@ def translate(repo):
         if len(ms) != 1:
             raise TranslateError("%s: definition not found (or not unique)" % what)
         b0 = src.index("{", ms[0].end())
-        return src[b0 + 1:match_brace(src, b0) - 1]
+        return inline_const_locals(src[b0 + 1:match_brace(src, b0) - 1])
     body = free_body(fraw, r"static\s+inline\s+void\s+multMatrix\s*\(", "FMatrixHelp::multMatrix")
     out.append("def psig_multMatrix : ProdSig :=\n  " + prod_sig(
         body, "FMatrixHelp::multMatrix", "ret", "A", "B", {"m": "fstRows", "n": "fstCols", "p": "sndCols"}))
@@ -897,7 +1176,7 @@ def translate(repo):
     out.append("")
     out.append("-- densematrix.hh: unary minus of DenseMatrix (result declared from asImp(), nest rows x cols)")
     what = "DenseMatrix::operator-()"
-    body = one_def(dm, r"operator-", what, lambda p: p == "")[1]
+    body = rename_local(one_def(dm, r"operator-", what, lambda p: p == "")[1], NEG_DECL % ("MAT", "MAT"), "result", what)
     out.append("def mnegResult : NegResult := %s" % neg_result(body, what, "MAT"))
     out.append("def msig_neg : EwSig := %s" % ew_sig(
         body, what, NEG_DECL % ("MAT", "MAT"), [r"(?:this->)?(?:rows\(\)|N\(\))", r"(?:this->)?(?:cols\(\)|M\(\))"],
